@@ -9,7 +9,7 @@ for f in ('patch.diff', 'demo.py'):
 meta = json.load(open(src / 'meta.json'))
 meta.update({'breaks_property': meta.get('property'), 'needs_to_manifest': meta.get('needs'),
              'confirmed': {'demo_clean_exit': 0, 'demo_mutated_exit': 1,
-                           'baseline_with_patch': 'BASELINE OK (479/479) reported by the authoring agent'},
+                           'baseline_with_patch': ('BASELINE OK (479/479) re-run by the framework author with the patch applied' if __import__('os').environ.get('BASELINE_RERUN') else 'BASELINE OK (479/479) reported by the authoring agent')},
              'ran': cmd, 'detected': detected, 'note': note})
 json.dump(meta, open(dst / 'meta.json', 'w'), indent=1)
 print('adopted', dst)
